@@ -59,8 +59,8 @@ InvLDoneOnlyNeeded       == (lazy /\ phase \in {"built", "running"}) => done \su
 InvNoCallAfterEvaluate   == (lazy /\ nev >= 1) => \A i \in FIdx(d) : ~ENABLED LCall(i, ArgsOf(d, kw, i))
 (* a started evaluate() of a later handle of a block can complete without invoking anything that is reused *)
 InvReusedNeedNoCall      == (lazy /\ phase = "running" /\ done = Needed(d, kw, out) \ Reused) => ENABLED EvalReturnFull(FullValue(d, kw, out)) \/ ENABLED EvalReturn(Eval(d, kw, out))
-(* a handle exists only for a defined evaluation without strictly surplus keywords *)
-InvBuiltDefined          == (lazy /\ phase \in {"built", "running"}) => (Defined(d, kw, out) /\ StrictSurplus(d, kw, out) = {})
+(* a handle exists only for a defined evaluation without strictly surplus keywords (first handle of a block) *)
+InvBuiltDefined          == (lazy /\ phase \in {"built", "running"}) => (Defined(d, kw, out) /\ (nh = 0 => StrictSurplus(d, kw, out) = {}))
 
 (* sensitivity of TaskGraphOK: every single-step corruption of an accepted graph that changes the dependency      *)
 (* relation or the node set of functions is rejected                                                              *)
